@@ -662,6 +662,55 @@ func (e *scriptEnv) run(nsteps int) {
 	}
 	e.stepCheckpoint()
 	e.touchAllKeys()
+	if fl.concurrent && len(e.senders) >= 2 && e.r.Intn(2) == 0 {
+		e.stepSkippedBarrier()
+	}
+}
+
+// stepSkippedBarrier (C02, always the last step of a case): a checkpoint one runner never takes part in. A non-empty
+// proper subset of the runners delivers barrier N; the others never got StartCheckpoint N and their next barrier
+// carries a later id. Whatever the operator does with such a barrier (the pinned tree rejects it and stays in
+// alignment N), it must not acknowledge a checkpoint id for which some runner has not delivered the barrier:
+// that checkpoint has no cut — the runner's events up to its own barrier of that id are not in it.
+func (e *scriptEnv) stepSkippedBarrier() {
+	order := lib.Shuffled(e.r, e.senders)
+	nA := 1 + e.r.Intn(len(order)-1)
+	n := e.ckptID + 1
+	later := n + uint64(1+e.r.Intn(2))
+	e.ckptID = later
+	acks0 := len(e.job.Acks())
+	delivered := map[uint64]map[string]bool{n: {}, later: {}}
+	e.logOp("checkpoint %d reaches only %v; %v send barrier(%d) next", n, order[:nA], order[nA:], later)
+	for _, s := range order[:nA] {
+		e.logOp("%s: barrier(%d)", s, n)
+		if err := e.node.Send(s, ophar.BarrierEvent(n)); err != nil {
+			e.c.Fail("handle-event-error", e.wit(), "HandleEvent(barrier %d from %s): %v", n, s, err)
+		}
+		delivered[n][s] = true
+		e.blocked[s] = true
+	}
+	for _, s := range order[nA:] {
+		e.logOp("%s: barrier(%d) [it never saw checkpoint %d]", s, later, n)
+		done := make(chan error, 1)
+		go func() { done <- e.node.Send(s, ophar.BarrierEvent(later)) }()
+		select {
+		case err := <-done:
+			e.logOp("   -> %v", err)
+		case <-time.After(2 * time.Second):
+			e.logOp("   -> still being served (parked)") // allowed: nothing is decided by the clock
+		}
+		delivered[later][s] = true
+		e.blocked[s] = true
+	}
+	for _, a := range e.job.Acks()[acks0:] {
+		for _, s := range e.senders {
+			if !delivered[a.CheckpointID][s] {
+				e.c.Fail("ack-without-every-barrier", e.wit(), "the operator acknowledged checkpoint %d, but runner %s has not delivered barrier %d (barriers delivered: %d from %v, %d from %v): the checkpoint has no cut for that runner",
+					a.CheckpointID, s, a.CheckpointID, n, order[:nA], later, order[nA:])
+			}
+		}
+	}
+	e.c.Feat("skipped_barrier_episodes", 1)
 }
 
 // touchAllKeys sends one no-op event per key so every key's supplied state is compared once more.
